@@ -183,10 +183,13 @@ def _explore_discovery(args):
             raised = '%s: %s' % (type(ex).__name__, ex)
         finally:
             w.net.fault = None
-        after = directory(w.light_set)
+        try:
+            after = directory(w.light_set)
+        except Exception as ex:          # the directory itself is broken (e.g. a group named None cannot be sorted)
+            after = ('directory-raises', '%s: %s' % (type(ex).__name__, ex))
         # a script addressing every light kind afterwards must not abort
         w.net.attempts.clear()
-        res = w.run_script('on "a" set "s" zone 1 set "m" row 0 on "h" print 9')
+        res = w.run_script('on "a" set "s" zone 1 set "m" row 0 on "h" repeat group as gg on group gg repeat location as ll on location ll print 9')
         return dict(before=before, after=after, result=result, raised=raised, attempts=None,
                     script_abort=res.abort, script_out=[e for e in res.trace if e[0] == 'out'])
     fault_free_after = None
@@ -199,6 +202,8 @@ def _explore_discovery(args):
         bad = None
         if o['raised']:
             bad = ('discover-raises', o['raised'])
+        elif o['after'][0] == 'directory-raises':
+            bad = ('directory-unusable-after-discovery', o['after'][1])
         elif not isinstance(o['result'], bool):
             bad = ('discover-does-not-return-a-bool', repr(o['result']))
         elif o['result'] is False and o['after'] != o['before']:
